@@ -72,5 +72,58 @@ func propTable() map[string]PropSpec {
 		Outside: "PTS_DTS_flags '01' (forbidden by ISO); pack_header contents (pack_field_length > 0): the library stores only the length byte; writer: previous_PES_packet_CRC and pack header are not supported by the library and not claimed",
 		Assumptions: []string{"Duration() is decided by cvc5 --solve-bv-as-int=sum (64-bit multiply/divide by constants)"},
 	}
+	c15 := func(thorough bool) []TaskSpec {
+		var hours, parse, write [][]int64
+		if thorough {
+			for h := int64(0); h < 100; h++ {
+				hours = append(hours, []int64{0, h, -1}, []int64{1, h, -1})
+			}
+			for lo := int64(15079); lo <= 65535; lo += 2048 {
+				hi := lo + 2047
+				if hi > 65535 {
+					hi = 65535
+				}
+				for w := int64(0); w < 3; w++ {
+					parse = append(parse, []int64{lo, hi, w})
+				}
+			}
+			for y := int64(1900); y <= 2038; y += 16 {
+				hi := y + 15
+				if hi > 2038 {
+					hi = 2038
+				}
+				write = append(write, []int64{y, hi})
+			}
+		} else {
+			for _, h := range []int64{0, 9, 10, 23, 99} {
+				hours = append(hours, []int64{1, h, -1})
+			}
+			hours = append(hours, []int64{0, 0, 0}, []int64{0, 9, 59}, []int64{0, 10, 30}, []int64{0, 23, 59}, []int64{0, 99, 59})
+			// chunks containing 1900-03-01, 2000-02-29/03-01, 2038-04-22 and the 14/15-month branch of Annex C
+			for _, lo := range []int64{15079, 51544 - 100, 65535 - 255, 40587 - 128} {
+				for w := int64(0); w < 3; w++ {
+					parse = append(parse, []int64{lo, lo + 255, w})
+				}
+			}
+			write = [][]int64{{1900, 1904}, {1999, 2001}, {2036, 2038}}
+		}
+		return []TaskSpec{
+			{Harness: "HarnessC15BCDByte", Reach: []string{"C15.bcd.end"}},
+			{Harness: "HarnessC15DurParse", Solver: "cvc5-int", Reach: []string{"C15.dur.parse.end"}, Workers: 1},
+			{Harness: "HarnessC15RawPanicFree", Reach: []string{"C15.raw.end"}},
+			{Harness: "HarnessC15DurWrite", ArgSets: hours, Solver: "cvc5", TimeoutMs: 600000, Reach: []string{"C15.dur.write.end"}, Workers: 1},
+			{Harness: "HarnessC15DateParse", ArgSets: parse, Solver: "cvc5", TimeoutMs: 600000, Reach: []string{"C15.date.parse.end"}, Workers: 1},
+			{Harness: "HarnessC15DateWrite", ArgSets: write, Solver: "cvc5", TimeoutMs: 600000, Reach: []string{"C15.date.write.end"}},
+		}
+	}
+	t["C15"] = PropSpec{
+		ID: "C15", Quick: c15(false), Thorough: c15(true),
+		Bounds: map[string]string{
+			"quick":    "BCD: all 2^8 bytes, all 2^16/2^24 raw duration patterns; duration writers: hh:mm writer for hours in {0,9,10,23,99} x all minutes, seconds and sub-second fractions (2^30); hh:mm:ss writer for (hour,minute) in {(0,0),(9,59),(10,30),(23,59),(99,59)} x all seconds and fractions; date decode: 4 MJD chunks of 256 values containing 1900-03-01, 2000-02-29, 2038-04-22 and 1970-01-01 x all BCD times of day; date encode: years 1900-1904, 1999-2001, 2036-2038, every day, 3 times of day; all 2^40 raw patterns for panic-freedom",
+			"thorough": "duration writers: all hours 0..99; date decode: all MJD 15079..65535 (25 chunks); date encode: all years 1900..2038",
+		},
+		Outside:     "non-UTC locations; normalisation inside time.Date (std); dates before 1900-03-01 (outside the property)",
+		Assumptions: []string{"time.Time stub: (Y,M,D,ns-of-day) tuple, UTC, arguments of time.Date already normalised (true for every input in the domain: 1<=M<=12, 1<=D<=days(Y,M), time of day < 24h)", "floating point is encoded exactly (SMT FloatingPoint theory, RNE, RTZ conversions) and decided by cvc5 on domain chunks", "reference civil<->MJD conversion uses 4-year cycles of 1461 days (valid 1900-03-01..2100-02-28)"},
+	}
 	return t
 }
